@@ -1,5 +1,16 @@
 // vf_manif.h -- glue between manif types and the reference model (property TUs only).
 #pragma once
+#ifndef VF_CFG
+#error "VF_CFG must be defined"
+#endif
+#if VF_CFG >= 41 && VF_CFG < 60
+#include "vf_rat_manif.h"
+#define VF_SCALAR_RAT 1
+#endif
+#if VF_CFG >= 61 && VF_CFG < 80
+#include "vf_dual_manif.h"
+#define VF_SCALAR_DUAL 1
+#endif
 #include <manif/manif.h>
 #include <manif/Bundle.h>
 
@@ -258,6 +269,24 @@ using GroupT = Bundle<double, SO2, SGal3, SO2>; static const char* kName = "B_SO
 using GroupT = Bundle<double, SO3, R7, SO2, SE3, SE2, SGal3, SE_2_3>; static const char* kName = "B_7elems_d";
 #elif VF_CFG == 31
 using GroupT = Bundle<float, SE3, SO2, R3>; static const char* kName = "B_SE3_SO2_R3_f";
+#elif VF_CFG == 41
+using GroupT = SO2<vf::Rat>; static const char* kName = "SO2r";
+#elif VF_CFG == 42
+using GroupT = SE2<vf::Rat>; static const char* kName = "SE2r";
+#elif VF_CFG == 43
+using GroupT = SO3<vf::Rat>; static const char* kName = "SO3r";
+#elif VF_CFG == 44
+using GroupT = SE3<vf::Rat>; static const char* kName = "SE3r";
+#elif VF_CFG == 45
+using GroupT = SE_2_3<vf::Rat>; static const char* kName = "SE_2_3r";
+#elif VF_CFG == 46
+using GroupT = SGal3<vf::Rat>; static const char* kName = "SGal3r";
+#elif VF_CFG == 47
+using GroupT = R3<vf::Rat>; static const char* kName = "R3r";
+#elif VF_CFG == 48
+using GroupT = Bundle<vf::Rat, SE3, SO2, R3, SE2, SE_2_3>; static const char* kName = "B_SE3_SO2_R3_SE2_SE23_r";
+#elif VF_CFG == 49
+using GroupT = Bundle<vf::Rat, SGal3, SO3>; static const char* kName = "B_SGal3_SO3_r";
 #else
 #error "unknown VF_CFG"
 #endif
